@@ -98,6 +98,7 @@ func sliceAccess() *slice {
 		MapLit([]string{"a"}, TInt), MapLit([]string{"a", "b"}, TInt, TStr),
 		Len(TIntArr), Len(TAnyArr), Len(TStr), Len(TAnyMap),
 		Bin("==", TObj, TNil, TBool), Bin("==", TAny, TNil, TBool), Bin("+", TInt, TInt, TInt),
+		Lit(`"N"`, TMyStr, "N"), Lit(`"zz"`, TMyStr, "zz"), Bin("in", TMyStr, TObj, TBool), Bin("not in", TMyStr, TObj, TBool), // TMyStr: field-name literals only
 		Var("X", TFunc), {Op: "cond", Out: TInt, In: []Slot{{T: TFunc, Operand: true, Closure: -1}, // TFunc: only the dynamic member X can be this condition
 			{T: TInt, Operand: true, Closure: -1}, {T: TInt, Operand: true, Closure: -1}}, Fmt: "%s ? %s : %s"},
 	}
@@ -204,4 +205,15 @@ func sliceNestType() *slice {
 		Builtin("map", TFloatArr, TBool, TAnyArr), Builtin("map", TIntArr, TBool, TAnyArr))
 	return &slice{name: "nesttype", g: NewGrammar(rules), tops: []NT{nt(TBool), nt(TFloatArr), nt(TIntArr), nt(TAnyArr), nt(TInt)},
 		modes: lib.AllModes, maxN: map[string]int{"quick": 9, "thorough": 10}}
+}
+
+// aliases: the symbolic spellings of the logical operators and the remaining comparison forms.
+func sliceAliases() *slice {
+	rules := []*Rule{
+		Var("B", TBool), Call("T1", TBool), Call("F1", TBool), Lit("1", TInt, 1), Var("I", TInt), Var("S", TStr), Lit(`"a"`, TStr, "a"),
+		Un("!", TBool, TBool), Bin("&&", TBool, TBool, TBool), Bin("||", TBool, TBool, TBool),
+		Bin("!=", TBool, TBool, TBool), Bin("!=", TInt, TInt, TBool), Bin("!=", TStr, TStr, TBool), Bin(">=", TInt, TInt, TBool), Bin("<=", TStr, TStr, TBool),
+		Un("+", TInt, TInt), Call("Pos", TBool, TInt),
+	}
+	return &slice{name: "aliases", g: NewGrammar(rules), tops: []NT{nt(TBool)}, modes: lib.AllModes, maxN: map[string]int{"quick": 5, "thorough": 6}}
 }
